@@ -243,7 +243,8 @@ class SuperProxy(Sym):
 class Loop:
     """Loop contract: invariant(cx, env[, i]) -> z3 Bool; optional decreases(cx, env) -> z3 Int term."""
 
-    def __init__(self, invariant, decreases=None, havoc=None, label=None, extra_modifies=(), on_havoc=None, match=None):
+    def __init__(self, invariant, decreases=None, havoc=None, label=None, extra_modifies=(), on_havoc=None, match=None, on_body=None):
+        self.on_body = on_body  # callback(cx, env, i): intermediate lemmas at the start of the loop body (cx.lemma)
         self.match = match  # substring of the loop header (`for x in y` / `while cond`) this contract belongs to
         self.on_havoc = on_havoc  # callback(cx, env): havoc ghost state the loop body may change
         self.invariant = invariant
@@ -415,7 +416,9 @@ class Interp:
                     if sub:
                         visit([h for h in sub] if field != 'handlers' else [x for h in sub for x in h.body])
         visit(node.body)
-        self.loop_ids = {id(st): i for i, st in enumerate(order)}
+        base = len(self.loop_ids)
+        for i, st in enumerate(order):
+            self.loop_ids.setdefault(id(st), base + i)
 
     def call_function(self, node, args=(), kwargs=None, closure_env=None):
         env = Env(closure_env)
@@ -737,6 +740,7 @@ class Interp:
                 except _Continue:
                     continue
         label = lc.label or 'loop%d' % k
+        ctx.inv_mode = 'goal'
         ctx.oblige('%s:init' % label, lc.invariant(ctx, env), info={'line': s.lineno})
         for nm in list(assigned_names(s.body + [ast.Expr(s.test)])) + list(lc.extra_modifies):
             if nm in lc.havoc:
@@ -745,7 +749,9 @@ class Interp:
                 env.store(nm, fresh_like(ctx, env.lookup(nm), '%s@%s' % (nm, label)))
         if lc.on_havoc:
             lc.on_havoc(ctx, env)
+        ctx.inv_mode = 'assume'
         ctx.assume(lc.invariant(ctx, env))
+        ctx.inv_mode = 'goal'
         if ctx.branch(self.cond(s.test, env)):
             m0 = lc.decreases(ctx, env) if lc.decreases else None
             try:
@@ -782,6 +788,7 @@ class Interp:
             raise Unsupported('for loop #%d: iterable %r has no symbolic sequence interface' % (k, it))
         label = lc.label or 'loop%d' % k
         n = it.seq_len(ctx)
+        ctx.inv_mode = 'goal'
         ctx.oblige('%s:init' % label, lc.invariant(ctx, env, z3.IntVal(0)), info={'line': s.lineno})
         for nm in list(assigned_names(s.body)) + list(lc.extra_modifies):
             if nm in lc.havoc:
@@ -792,9 +799,13 @@ class Interp:
             lc.on_havoc(ctx, env)
         i = ctx.int('i@' + label, report=False)
         ctx.assume(z3.And(i >= 0, i <= n))
+        ctx.inv_mode = 'assume'
         ctx.assume(lc.invariant(ctx, env, i))
+        ctx.inv_mode = 'goal'
         if ctx.branch(i < n):
             self.assign(s.target, it.seq_at(ctx, i), env)
+            if lc.on_body:
+                lc.on_body(ctx, env, i)
             try:
                 self.block(s.body, env)
             except _Break:
